@@ -13,6 +13,8 @@ def rand_container_attrs(rng, level, rich=True):
         a['encoding'] = rng.choice(ENCS)
     if level < 2 and rng.random() < 0.6:
         a['preamble'] = rng.choice(pools.TEXTS)
+        if rich and rng.random() < 0.03:
+            a['preamble'] = rng.choice(['caf\udce9', 'x\udc80', '\ud800'])     # lone surrogates: no codec encodes them
         if rng.random() < 0.4:
             a['preamble_encoding'] = rng.choice(ENCS)
         if rng.random() < 0.5:
